@@ -55,6 +55,11 @@ def programs(tier):
     for p in list(progs):
         if not p['embed'] and len(p['widths']) <= 2:
             progs.append({'widths': p['widths'], 'embed': False, 'gen': False})
+    # the class-wide default byte order concerns integers, not bit runs: the run stays MSB-first
+    for p in list(progs):
+        if sum(p['widths']) >= 16 and len(p['widths']) <= 3 and not p.get('gen') is False:
+            for e in ('little', 'local'):
+                progs.append({'widths': p['widths'], 'embed': p['embed'], 'endianness': e})
     # totals that are not a multiple of 8 must be rejected at class definition
     for total in range(1, 18):
         if total % 8:
@@ -72,8 +77,18 @@ def source(p):
         lines.append('b%d = Bits(%d)' % (i, w))
     if p.get('embed'):
         lines.append('post = Int(2)')
-    opts = mk.GEN_ALL_OFF if p.get('gen') is False else None
-    return mk.class_src('K', lines, opts)
+    opts = dict(mk.GEN_ALL_OFF) if p.get('gen') is False else {}
+    if p.get('endianness'):
+        opts['endianness'] = p['endianness']
+    return mk.class_src('K', lines, opts or None)
+
+
+def POST(p):
+    """the bytes of post = Int(2) holding 0x1234 in the class' byte order"""
+    import sys
+    e = p.get('endianness')
+    little = e == 'little' or (e == 'local' and sys.byteorder == 'little')
+    return b'\x34\x12' if little else b'\x12\x34'
 
 
 def lane_patterns(nbytes):
@@ -139,7 +154,7 @@ def check_program(p, st):
         names = ['b%d' % i for i in range(len(widths))]
         # ---- unpack
         for pat in lane_patterns(nbytes):
-            raw = (b'\x7e' + pat + b'\x12\x34') if emb else pat
+            raw = (b'\x7e' + pat + POST(p)) if emb else pat
             exp = ref_slices(pat, widths)
             st.inc('evaluations')
             try:
@@ -151,7 +166,7 @@ def check_program(p, st):
             if got != exp:
                 viol('unpack-slices', 'unpack(%r) -> %r, expected %r' % (raw, got, exp), {'op': 'unpack', 'raw': raw})
                 continue
-            if emb and (pk.pre, pk.post) != (0x7e, 0x1234):
+            if emb and (pk.pre, pk.post) != (0x7e, 0x1234):   # post is written in the class' byte order (see POST)
                 viol('unpack-neighbours', 'unpack(%r): pre/post = %r' % (raw, (pk.pre, pk.post)), {'op': 'unpack', 'raw': raw})
             st.add('outcomes', ('u', len(widths), tuple(min(v, 1) for v in got)) if len(widths) <= 4 else ('u', len(widths)))
             try:
@@ -163,14 +178,14 @@ def check_program(p, st):
         # ---- histories on ONE packet object: the shared integer is already populated when pack() runs
         #      (unpack -> set one field -> pack;  pack -> set one field -> pack)
         for base in (b'\xff' * nbytes, b'\x00' * nbytes, bytes([0xa5] * nbytes)):
-            raw = (b'\x7e' + base + b'\x12\x34') if emb else base
+            raw = (b'\x7e' + base + POST(p)) if emb else base
             cur = ref_slices(base, widths)
             for i, wd in enumerate(widths):
                 for v in (0, 1, (1 << wd) - 1, (1 << wd) >> 1):
                     vals = list(cur)
                     vals[i] = v
                     exp = ref_pack(vals, widths)
-                    expraw = (b'\x7e' + exp + b'\x12\x34') if emb else exp
+                    expraw = (b'\x7e' + exp + POST(p)) if emb else exp
                     st.inc('evaluations')
                     try:
                         pk = K.unpack(raw)
@@ -199,7 +214,7 @@ def check_program(p, st):
                     vals = [((1 << x) - 1) if ones else 0 for x in widths]
                     vals[i] = v
                     exp = ref_pack(vals, widths)
-                    expraw = (b'\x7e' + exp + b'\x12\x34') if emb else exp
+                    expraw = (b'\x7e' + exp + POST(p)) if emb else exp
                     st.inc('evaluations')
                     kw = dict(zip(names, vals))
                     if emb:
